@@ -381,6 +381,11 @@ func (e *Engine) runPath(sol *Solver, fn *ssa.Function, decisions []Dec) (res Pa
 			ex.recordViolation("panic", "uncaught panic: "+res.Msg, nil)
 			res.Viols = ex.viols
 		}
+		if res.Status == "blocked" {
+			// the code under test waits for ever (nothing can wake it up)
+			ex.recordViolation("blocked", "blocked for ever: "+res.Msg, nil)
+			res.Viols = ex.viols
+		}
 		if res.Status == "ok" || res.Status == "panic" || res.Status == "blocked" {
 			res.Model, res.Obs = ex.finalModel()
 		}
